@@ -148,6 +148,8 @@ def _analyse(prop_id: str, repo: str, overlay: Optional[Dict[str, str]] = None,
     rep.trust("CPython ast parser", "afqmc_lint program model (MRO, dataclass, jit/vmap/scan "
               "binding rules) as described in DESIGN.md 2.1")
     m.run(ctx)
+    from .rules import pitfalls
+    pitfalls.run(ctx, prop_id)
     st = program.stats()
     rep.extra["program"] = st
     return rep
